@@ -161,54 +161,78 @@ def _site_now():
     return '%s<-%s' % (inner, names[1].rsplit('.', 1)[-1])
 
 
+class ManagerKilled(BaseException):
+    """The AppCfgMgr process dies here (kill -9 / node power loss)."""
+
+
 def _wrap_os():
     real_symlink, real_rename = os.symlink, os.rename
     real_replace, real_unlink = os.replace, os.unlink
     real_remove = os.remove
 
-    def note_create(dst):
+    def tracked(path):
         w = _CUR
-        if w is None or not isinstance(dst, str):
-            return
-        d = os.path.dirname(dst)
+        if w is None or not isinstance(path, str):
+            return None
+        d = os.path.dirname(path)
         if d == w.running_dir or d == w.cleanup_dir:
+            return w
+        return None
+
+    def note_create(dst):
+        w = tracked(dst)
+        if w is not None:
             w.link_seq += 1
             w.link_site[dst] = (w.link_seq, _site_now())
 
     def note_remove(path):
-        w = _CUR
-        if w is None or not isinstance(path, str):
-            return
-        d = os.path.dirname(path)
-        if d == w.running_dir or d == w.cleanup_dir:
+        w = tracked(path)
+        if w is not None:
             w.link_site.pop(path, None)
             w.removals.append((path, _site_now()))
+
+    def tick(*paths):
+        """Crash point: the manager process is killed right after its k-th
+        link operation under running/ or cleanup/."""
+        for p in paths:
+            w = tracked(p)
+            if w is not None:
+                if w.crash_at and w.actor.startswith('AppCfgMgr'):
+                    w.linkops += 1
+                    if w.linkops == w.crash_at:
+                        raise ManagerKilled()
+                return
 
     def symlink(src, dst, *a, **k):
         r = real_symlink(src, dst, *a, **k)
         note_create(dst)
+        tick(dst)
         return r
 
     def rename(src, dst, *a, **k):
         r = real_rename(src, dst, *a, **k)
         note_remove(src)
         note_create(dst)
+        tick(src, dst)
         return r
 
     def replace(src, dst, *a, **k):
         r = real_replace(src, dst, *a, **k)
         note_remove(src)
         note_create(dst)
+        tick(src, dst)
         return r
 
     def unlink(path, *a, **k):
         r = real_unlink(path, *a, **k)
         note_remove(path)
+        tick(path)
         return r
 
     def remove(path, *a, **k):
         r = real_remove(path, *a, **k)
         note_remove(path)
+        tick(path)
         return r
 
     os.symlink, os.rename, os.replace = symlink, rename, replace
@@ -327,10 +351,14 @@ class Snap:
     def targets(self):
         """container -> sorted [(dir, link name)]"""
         out = collections.defaultdict(list)
+        # s6-svscan and Cleanup._add_cleanup_app ignore dot names (the
+        # temporary links of fs.symlink_safe)
         for name, tgt in self.running.items():
-            out[tgt].append(('running', name))
+            if not name.startswith('.'):
+                out[tgt].append(('running', name))
         for name, tgt in self.cleanup.items():
-            out[tgt].append(('cleanup', name))
+            if not name.startswith('.'):
+                out[tgt].append(('cleanup', name))
         for v in out.values():
             v.sort()
         return out
@@ -437,6 +465,8 @@ class NodeWorld:
         self.actor = 'harness'
         self.crashes = []
         self.harness_error = None
+        self.crash_at = 0
+        self.linkops = 0
         self.prev = None
         _CUR = self
         self.mgr = None
@@ -543,9 +573,25 @@ class NodeWorld:
                           self.site_of('running', name)[1],
                           {'link': name, 'target': str(self.cid(tgt)),
                            'state': self.describe(post)})
+        # a container leaves running/ only by being handed to cleanup
+        for name, tgt in pre.running.items():
+            if name.startswith('.') or tgt not in post.apps:
+                continue
+            if tgt in qt:
+                continue
+            self.stats['dropped_checked'] += 1
+            if name in post.running:
+                site = self.site_of('running', name)[1]
+            else:
+                site = dict(self.removals).get(
+                    os.path.join(self.running_dir, name), '?<-' + self.actor)
+            self.flag('running-container-dropped-not-in-cleanup', site,
+                      {'container': str(self.cid(tgt)),
+                       'link_now': str(self.cid(post.running.get(name))),
+                       'state': self.describe(post)})
         pre_run = set(pre.running.values())
         for name, tgt in post.running.items():
-            if tgt in pre_run:
+            if tgt in pre_run or name.startswith('.'):
                 continue
             flags = pre.apps.get(tgt)
             if flags and flags & set(FINISH_FLAGS):
@@ -677,6 +723,9 @@ class NodeWorld:
             fn(*args)
         except statex.HarnessError:
             raise
+        except ManagerKilled:
+            self.stats['manager_killed_mid_handler'] += 1
+            ok = False
         except Exception as err:  # pylint: disable=broad-except
             tb = err.__traceback__
             last = None
@@ -731,15 +780,31 @@ class NodeWorld:
         if not ok:
             # the process died; s6 restarts it with an empty inotify queue
             del self.fifo[:]
+            self.crash_at = 0
             self.new_manager()
 
-    def deliver_all(self):
+    def deliver_all(self, crash_at=0):
+        """DirWatcher.process_events until the queue is empty; with crash_at
+        the manager is killed after its crash_at-th link operation."""
+        self.crash_at = crash_at
+        self.linkops = 0
         n = 0
-        while self.fifo:
-            self.deliver_one()
-            n += 1
-            if n > 50:
-                raise statex.HarnessError('notification storm')
+        try:
+            while self.fifo:
+                self.deliver_one()
+                n += 1
+                if n > 50:
+                    raise statex.HarnessError('notification storm')
+        finally:
+            self.crash_at = 0
+
+    def after_change(self, now):
+        """now: 1 deliver at once, 0 leave queued, k >= 2 deliver at once and
+        kill the manager after its (k-1)-th link operation."""
+        if now == 1:
+            self.deliver_all()
+        elif now >= 2:
+            self.deliver_all(crash_at=now - 1)
 
     # -- events -----------------------------------------------------------------
     def apply(self, ev):
@@ -758,8 +823,7 @@ class NodeWorld:
                 tm_fs.rm_safe(path)             # EventMgr._cache_notify(False)
                 self.ready = False
                 self.fifo.append(('deleted', READY))
-            if ev[2]:
-                self.deliver_all()
+            self.after_change(ev[2])
         elif kind == 'put':
             key, bad = ev[1], ev[2]
             gen = self.nextgen[key]
@@ -778,8 +842,26 @@ class NodeWorld:
             self.cache[key] = gen
             self.cname[appcfg.eventfile_unique_name(path)] = (key, gen)
             self.fifo.append(('created', name))
-            if ev[3]:
-                self.deliver_all()
+            self.after_change(ev[3])
+        elif kind == 'rep':
+            # EventMgr._cache(check_existing=True): a stale manifest is
+            # rewritten in place (rename over the old file): one MOVED_TO
+            key = ev[1]
+            gen = self.nextgen[key]
+            self.nextgen[key] = gen + 1
+            name = INSTANCE[key]
+            path = os.path.join(self.cache_dir, name)
+            self.bad[(key, gen)] = False
+            tmp = os.path.join(self.cache_dir, '.%s-tmp' % name)
+            with io.open(tmp, 'w') as f:
+                json.dump({'task': name.split('#')[1], 'gen': gen,
+                           'bad': False}, f)
+            os.rename(tmp, path)
+            self.cache_ident[path] = ident(key, gen, self.salt)
+            self.cache[key] = gen
+            self.cname[appcfg.eventfile_unique_name(path)] = (key, gen)
+            self.fifo.append(('created', name))
+            self.after_change(ev[2])
         elif kind == 'del':
             key = ev[1]
             name = INSTANCE[key]
@@ -788,10 +870,14 @@ class NodeWorld:
             del self.cache[key]
             self.cache_ident.pop(path, None)
             self.fifo.append(('deleted', name))
-            if ev[2]:
-                self.deliver_all()
+            self.after_change(ev[2])
         elif kind == 'dlv':
-            self.deliver_one()
+            self.crash_at = ev[1] if len(ev) > 1 else 0
+            self.linkops = 0
+            try:
+                self.deliver_one()
+            finally:
+                self.crash_at = 0
         elif kind == 'rst':
             del self.fifo[:]
             self.new_manager()
@@ -801,13 +887,16 @@ class NodeWorld:
             # then every service (eventmgr, appcfgmgr, monitor) starts afresh
             for d in (self.running_dir, self.cleanup_dir):
                 for n in os.listdir(d):
-                    os.unlink(os.path.join(d, n))
+                    p = os.path.join(d, n)
+                    if os.path.islink(p) or not os.path.isdir(p):
+                        os.unlink(p)        # rm -f leaves directories
             tm_fs.rm_safe(os.path.join(self.cache_dir, READY))
             self.ready = False
             del self.fifo[:]
             del self.tombs[:]
             self.new_manager()
             self.stats['boots'] += 1
+            self.prev = self.snapshot()     # not an action of the manager
         elif kind == 'fin':
             key, how = ev[1], ev[2]
             name = INSTANCE[key]
@@ -859,11 +948,15 @@ class NodeWorld:
         cfg = self.cfg
         menu = []
         snap = self.prev or self.snapshot()
-        nows = (1, 0)
+        nows = (1, 0) + tuple(range(2, 2 + cfg.get('crash_points', 0)))
         for key in cfg['keys']:
             if key in self.cache:
                 for now in nows:
                     menu.append(('del', key, now))
+                if cfg.get('rep') and \
+                        self.nextgen[key] <= cfg['maxgen'][key]:
+                    for now in nows:
+                        menu.append(('rep', key, now))
             elif self.nextgen[key] <= cfg['maxgen'][key]:
                 for bad in cfg['bad'].get(key, (0,)):
                     for now in nows:
@@ -871,10 +964,12 @@ class NodeWorld:
         for now in nows:
             menu.append(('rdy', 1, now))
         if self.ready:
-            for now in nows:
+            for now in (1, 0):
                 menu.append(('rdy', 0, now))
         if self.fifo:
             menu.append(('dlv',))
+            for k in range(1, 1 + cfg.get('crash_points', 0)):
+                menu.append(('dlv', k))
         menu.append(('rst',))
         for key in cfg['keys']:
             name = INSTANCE[key]
